@@ -16,7 +16,7 @@ MANIFEST_INFO = {
     "engine": "C",
     "design_ref": "DESIGN.md section 5, C12",
     "technique": "stateless preemption-bounded exhaustive exploration of real threads under a baton-passing scheduler (scheduling point before every semaphore operation, thread start/join and every call on the shared target), one injected target fault, deadlock detection",
-    "level_text": "2-3 real threads, each reporting 1-2 tests (one of them with a second outcome, skips with an empty reason) through its own real ThreadsafeForwardingResult over one shared recording target and one shared semaphore, are run under every schedule with at most 2 preemptions (quick; 3 and unbounded for the 2x2 harness in thorough) and at most one raising target call; every execution's target log is checked for contiguous per-test blocks, exactly-once outcomes, per-thread order, own start time, tags, and the semaphore/deadlock conditions.",
+    "level_text": "2-3 real threads, each reporting 1-2 tests (one of them with a second outcome, skips with an empty reason) through its own real ThreadsafeForwardingResult over one shared recording target and one shared semaphore, are run under every schedule with at most 2 preemptions (quick; 3 and unbounded for the 2x2 harness in thorough) and at most one raising target call (an Exception, or for some calls a BaseException that is not one); one script also reports an outcome without startTest after a full test; every execution's target log is checked for contiguous per-test blocks, exactly-once outcomes, per-thread order, own start time, tags, and the semaphore/deadlock conditions.",
     "level_note": "Scheduling points are at synchronisation operations and at calls on shared objects; steps in between touch thread-local state only (each forwarder is owned by one thread). The GIL makes bytecodes atomic; no memory-model effects are modelled.",
 }
 
